@@ -84,7 +84,7 @@ func cmdDump(args []string) {
 	defer cleanupTmp()
 	var keys []string
 	for k := range w.contracts {
-		if strings.HasSuffix(k, *fn) || *fn == "" {
+		if strings.Contains(k, *fn) || *fn == "" {
 			keys = append(keys, k)
 		}
 	}
@@ -102,7 +102,7 @@ func cmdDump(args []string) {
 		return
 	}
 	for _, lm := range w.lemmas {
-		if *fn == "" || strings.HasSuffix(lm.Name, *fn) {
+		if *fn == "" || strings.Contains(lm.Name, *fn) {
 			t := time.Now()
 			r := w.verifyLemma(lm)
 			r.Secs = time.Since(t).Seconds()
